@@ -22,4 +22,6 @@ cmp -s go.mod.new go.mod || mv go.mod.new go.mod
 rm -f go.mod.new
 cmp -s $REPO/go.sum go.sum || cp $REPO/go.sum go.sum
 mkdir -p bin
-go build -tags verif "$@" -o bin/vharness ./cmd/vharness
+OUT=bin/vharness
+for a in "$@"; do [ "$a" = "-race" ] && OUT=bin/vharness-race; done   # C25: a second binary, so that the two modes do not relink each other
+go build -tags verif "$@" -o $OUT ./cmd/vharness
